@@ -266,6 +266,7 @@ inline int harness_main(int argc, char **argv, const std::string &property, std:
   std::string replay, only;
   int size_override = -1;
   int enum_level = 0;
+  long shard_k = 0, shard_n = 1;  // enumerations are split between the processes of one run
   for (int i = 1; i < argc; ++i) {
     std::string a = argv[i];
     auto next = [&]() -> std::string { return (i + 1 < argc) ? argv[++i] : ""; };
@@ -277,6 +278,10 @@ inline int harness_main(int argc, char **argv, const std::string &property, std:
     else if (a == "--sub") only = next();
     else if (a == "--max-size") size_override = atoi(next().c_str());
     else if (a == "--enum") enum_level = atoi(next().c_str());
+    else if (a == "--shard") {
+      shard_k = atol(next().c_str());
+      shard_n = std::max(1L, atol(next().c_str()));
+    }
     else if (a == "--list") {
       for (auto &s : subs) std::cout << s.name << "\n";
       return 0;
@@ -326,7 +331,9 @@ inline int harness_main(int argc, char **argv, const std::string &property, std:
     S.stats[sub.name];
     if (sub.enumerate && enum_level > 0) {
       long n_enum = 0;
+      long enum_index = 0;
       sub.enumerate(enum_level, [&](const json &c) {
+        if ((enum_index++ % shard_n) != shard_k) return true;
         Result r = run_guarded(sub, c);
         account(sub, c, r);
         ++n_enum;
